@@ -18,7 +18,7 @@ import queue as _queue
 from ..common import Finding, Report
 
 NEEDS_LOOP = ("buffer", "delay", "rate_limit", "timed_window", "timed_window_unique", "partition", "latest", "map_async",
-              "dask_scatter", "dask_map")
+              "dask_scatter", "dask_map", "partition_t")
 PLAIN = ("map", "sink", "filter", "sliding_window", "unique", "sink_to_list")
 JOINS = ("union", "zip", "combine_latest", "zip_latest")
 
@@ -233,6 +233,8 @@ def make_node(kind, ups, seams, A, L):
         return sc.partition(u, 2, **kw)
     if kind == "latest":
         return sc.latest(u, **kw)
+    if kind == "partition_t":
+        return sc.partition(u, 2, timeout=1, **kw)
     if kind == "map_async":
         async def f(x):
             return x
@@ -264,7 +266,7 @@ def _with_kw(cls, args, kw):
     return cls(*args)
 
 
-ACCEPTS_KW = ("sink", "dask_scatter", "sliding_window", "unique", "buffer", "delay", "rate_limit", "timed_window", "timed_window_unique",
+ACCEPTS_KW = ("partition_t", "sink", "dask_scatter", "sliding_window", "unique", "buffer", "delay", "rate_limit", "timed_window", "timed_window_unique",
               "partition", "latest", "union", "zip", "combine_latest", "zip_latest")
 
 
@@ -331,6 +333,22 @@ def run_config(cfg):
                 v = compare(nodes, comp, seams, bg, cfg, st[1])
                 if v:
                     return (v[0], v[1], "extend-sibling-branch", v[3])
+                continue
+            if st[0] == "run":
+                # use the pipeline once (asynchronous pipelines only: a blocking emit would wait for the inert loop):
+                # start the source / push one element; whatever gets scheduled now belongs on the component's loop too
+                if comp.mode is not True:
+                    continue
+                try:
+                    if first != "Stream":
+                        nodes[0].start()
+                    else:
+                        nodes[0].emit(1)
+                except Exception as e:   # noqa
+                    return ("exception", st[1] if len(st) > 1 else first, "run", dict(cfg=cfg, error=repr(e)[:200]))
+                v = compare(nodes, comp, seams, bg, cfg, steps[-2][1] if len(steps) > 1 else first)
+                if v:
+                    return (v[0], v[1], "at-run-time", v[3])
                 continue
             if st[0] == "node":
                 _, kind, a, l = st
@@ -480,6 +498,10 @@ def configs(thorough):
                             for k2 in ("buffer", "map", "timed_window"):
                                 yield (first, A, L, (("sibling",), ("node", k, a, l), ("extend-sibling", k2)))
                                 yield (first, A, L, (("sibling",), ("node", "map", None, None), ("node", k, a, l), ("extend-sibling", k2)))
+                if first in ("Stream", "from_periodic", "from_iterable", "from_textfile", "filenames") and A is True:
+                    yield (first, A, L, (("run",),))
+                    for k in ("map", "partition_t", "latest", "buffer", "map_async", "timed_window", "rate_limit", "delay"):
+                        yield (first, A, L, (("node", k, None, None), ("run",)))
                 if first in ("Stream", "from_periodic", "from_iterable"):
                     # a default Dask client exists in the process
                     yield (first, A, L, (("dask",),))
